@@ -1038,7 +1038,7 @@ impl Check for C11
 	}
 	fn rule(&self) -> String
 	{
-		"(a) generated executable programs (>= 3 top-level declarations), one third with a planted ill-formed declaration (13 kinds: E400/E401/E402/E405/E413/E415/E421/E423/E424/E425/E426/E380/E801), each printed in the generated, the reversed and 2 (quick) / 4 (thorough) random orders; (b) random dependency graphs over 3-8 constants and structures (constant uses constant, constant uses |:S|, structure embeds structure, array-length names a constant, pointer members that never count), half of them with a planted cycle of 1-3 nodes; (c) every documented type/position cell (var, const, parameter, return, struct member, word member, extern parameter/return, size-of) — 76 cells, exhaustive; (c2) EVERY type term of nesting depth <= 3 over {[2]T, []T, [..]T, &T} x {i32, u8, bool, S, W} in variable, struct-member and parameter position (1275 cells) against the rule of docs E350: an element type must have a compile-time known size, which []T and [..]T lack and &T has - invalid terms must be rejected with a code in E350-E359, terms built from [N] and & only must be accepted as variables and members (and as parameters when a pointer is outermost), everything else is run but not asserted; (d) duplicate declarations of every kind, words over-filled by 1-16 bytes, words over-filled by alignment padding alone (C10's word generator), array lengths naming a variable or parameter, at a random position among valid declarations. Oracle: (a) same verdict, same multiset of codes and (accepted) same stdout == reference interpreter in every order, planted code among the codes; (b) acyclic => accepted and printed constants/sizes equal the dependency model, cycle => E413/E415/E416 by the kinds on the cycle; (c)(d) the documented code, or acceptance. Non-trivial: always for (a)(c)(d); graphs with >= 4 nodes and >= 2 edges; distinct by source.".into()
+		"(a) generated executable programs (>= 3 top-level declarations), one third with a planted ill-formed declaration (13 kinds: E400/E401/E402/E405/E413/E415/E421/E423/E424/E425/E426/E380/E801), each printed in the generated, the reversed and 2 (quick) / 4 (thorough) random orders; (b) random dependency graphs over 3-8 constants and structures (constant uses constant, constant uses |:S|, structure embeds structure, array-length names a constant, pointer members that never count; in a quarter of the graphs one structure bears the name of a constant), half of them with a planted cycle of 1-3 nodes; (c) every documented type/position cell (var, const, parameter, return, struct member, word member, extern parameter/return, size-of) — 76 cells, exhaustive; (c2) EVERY type term of nesting depth <= 3 over {[2]T, []T, [..]T, &T} x {i32, u8, bool, S, W} in variable, struct-member and parameter position (1275 cells) against the rule of docs E350: an element type must have a compile-time known size, which []T and [..]T lack and &T has - invalid terms must be rejected with a code in E350-E359, terms built from [N] and & only must be accepted as variables and members (and as parameters when a pointer is outermost), views, endless arrays and pointers to views as structure members must be rejected (value_type.rs can_be_struct_member, E356), everything else is run but not asserted; (d) duplicate declarations of every kind, words over-filled by 1-16 bytes, words over-filled by alignment padding alone (C10's word generator), array lengths naming a variable or parameter, at a random position among valid declarations. Oracle: (a) same verdict, same multiset of codes and (accepted) same stdout == reference interpreter in every order, planted code among the codes; (b) acyclic => accepted and printed constants/sizes equal the dependency model, cycle => E413/E415/E416 by the kinds on the cycle; (c)(d) the documented code, or acceptance. Non-trivial: always for (a)(c)(d); graphs with >= 4 nodes and >= 2 edges; distinct by source.".into()
 	}
 	fn assumptions(&self) -> Vec<String>
 	{
